@@ -1269,3 +1269,502 @@ class StreamSuite(Suite):
 
     def feature(self, case, h):
         return case.line
+
+
+# ================================================================================================ C13: typed extraction
+INT_TYPES = [("i8", True, 8), ("u8", False, 8), ("i16", True, 16), ("u16", False, 16), ("i32", True, 32), ("u32", False, 32), ("i64", True, 64), ("u64", False, 64)]
+
+
+def py_float32(x):
+    """nearest binary32 of a python float (ties to even), as bits; overflow -> inf"""
+    try:
+        return gens.float_bits(x)
+    except OverflowError:
+        return 0xFF800000 if x < 0 else 0x7F800000
+
+
+def int_to_double_bits(n):
+    try:
+        return gens.double_bits(float(n))
+    except OverflowError:
+        return gens.double_bits(float("-inf") if n < 0 else float("inf"))
+
+
+def int_to_float_bits(n):
+    # round-to-nearest-even in one step (not via double)
+    if n == 0:
+        return 0
+    s = n < 0
+    m = abs(n)
+    e = m.bit_length() - 24
+    if e > 0:
+        q, r = m >> e, m & ((1 << e) - 1)
+        half = 1 << (e - 1)
+        if r > half or (r == half and q & 1):
+            q += 1
+        if q == 1 << 24:
+            q >>= 1
+            e += 1
+    else:
+        q, e = m << -e, e
+    # q has 24 bits, value = q * 2^e
+    ex = e + 127 + 23
+    if ex >= 255:
+        return 0xFF800000 if s else 0x7F800000
+    return (0x80000000 if s else 0) | (ex << 23) | (q & 0x7FFFFF)
+
+
+def canon_nan(h):
+    """NaN payloads are not observable behaviour: print every NaN as 'nan'"""
+    out = []
+    for x in h.split(" "):
+        if x.startswith("f=") and len(x) == 10 and gens.f32_value(int(x[2:], 16)) == "nan":
+            x = "f=nan"
+        elif x.startswith("d=") and len(x) == 18 and gens.f64_value(int(x[2:], 16)) == "nan":
+            x = "d=nan"
+        out.append(x)
+    return " ".join(out)
+
+
+class ConvSuite(Suite):
+    name = "conv"
+
+    def canon_h(self, case, h):
+        return canon_nan(h)
+
+    def canon_m(self, case, m):
+        return canon_nan(m)
+
+    def generate(self, rng, tier):
+        cb = cfgbits(self.cfg)
+        terms = []
+        pows = [2 ** k for k in range(0, 65)]
+        for p in pows:
+            for dlt in (-2, -1, 0, 1, 2):
+                v = p + dlt
+                if 0 <= v < 2 ** 64:
+                    terms.append("U%d" % v)
+                if -2 ** 63 <= v < 2 ** 63:
+                    terms.append("I%d" % v)
+                if -2 ** 63 <= -v < 2 ** 63:
+                    terms.append("I%d" % -v)
+                # doubles and floats around the same magnitudes
+                for x in (float(v), -float(v), float(v) + 0.5, -(float(v) + 0.5), float(v) - 0.5):
+                    terms.append("d%016x" % gens.double_bits(x))
+                    fb = py_float32(x)
+                    terms.append("f%08x" % fb)
+        for b in gens.BOUND_F32 + mpack.BOUNDARY_F32:
+            for d in (-1, 0, 1):
+                terms.append("f%08x" % ((b + d) % 2 ** 32))
+        for b in gens.BOUND_F64 + mpack.BOUNDARY_F64:
+            for d in (-1, 0, 1):
+                terms.append("d%016x" % ((b + d) % 2 ** 64))
+        n = getattr(self, "n", 8000 if tier == "quick" else 1000000)
+        for _ in range(n):
+            r = rng.random()
+            if r < 0.25:
+                terms.append("f%08x" % rng.getrandbits(32))
+            elif r < 0.5:
+                terms.append("d%016x" % rng.getrandbits(64))
+            elif r < 0.6:
+                # doubles with integral or half-integral values near type limits
+                k = rng.choice([7, 8, 15, 16, 31, 32, 63, 64])
+                x = float(2 ** k) * rng.choice([1, -1]) + rng.choice([-1.5, -1, -0.5, 0, 0.5, 1, 1.5, 1024, -1024, 2048])
+                terms.append("d%016x" % gens.double_bits(x))
+            elif r < 0.7:
+                terms.append("U%d" % rng.getrandbits(rng.choice([8, 16, 31, 32, 33, 63, 64])))
+            elif r < 0.8:
+                terms.append("I%d" % (rng.getrandbits(rng.choice([7, 15, 31, 32, 62, 63])) * rng.choice([1, -1])))
+            else:
+                # numeric strings, stored by copy or by address
+                txt = rng.choice([str(rng.choice(pows) + rng.choice([-1, 0, 1])), "-" + str(rng.choice(pows) + rng.choice([-1, 0, 1])),
+                                  "%d.%d" % (rng.randrange(0, 70000), rng.randrange(0, 100)), "-%d.5" % rng.randrange(0, 300), "%de%d" % (rng.randrange(1, 99), rng.randrange(0, 20)),
+                                  "0" * rng.randrange(0, 5) + str(rng.getrandbits(rng.choice([8, 32, 64]))), "abc", "", "1e400", "-1e400", "0x10", "12abc", " 12", "1" + "0" * rng.choice([30, 100, 400, 700])])
+                terms.append(rng.choice("SL") + txt.encode().hex())
+        for t in ["N", "T", "F", "[I1]", "{61:I1}", "R31"]:
+            terms.append(t)
+        return [Case("conv %d t:%s" % (cb, t), term=t) for t in terms]
+
+    def oracle(self, case, h):
+        o = Suite.oracle(self, case, h)
+        if o:
+            return (o[0] + (":linked-string" if case.meta["term"][0] == "L" else ""), o[1] + " on " + case.line[:80])
+        if "ALIAS-MISMATCH" in h:
+            return ("conv:alias", "long/int/short/char spellings disagree with the fixed-width type of the same size: " + case.line)
+        f = dict(x.split("=") for x in h.split(" ") if "=" in x)
+        t = case.meta["term"]
+        kind = t[0]
+        if kind in "UI":
+            v = Fraction(int(t[1:]))
+            stored_int = True
+        elif kind == "f":
+            v = gens.f32_value(int(t[1:], 16))
+            stored_int = False
+        elif kind == "d":
+            v = gens.f64_value(int(t[1:], 16))
+            stored_int = False
+        elif kind in "SL":
+            txt = bytes.fromhex(t[1:]).decode("latin-1")
+            if not re.fullmatch(r"-?[0-9]+", txt) or len(txt) > 19:
+                return None           # non-integer strings: value is only known up to the parse accuracy (C12)
+            v = Fraction(int(txt))
+            stored_int = False
+        else:
+            return None
+        isb = f["is"]
+        for i, (name, signed, bits) in enumerate(INT_TYPES):
+            lo = -(1 << (bits - 1)) if signed else 0
+            hi = (1 << (bits - 1)) - 1 if signed else (1 << bits) - 1
+            if v in ("nan", "inf", "-inf"):
+                want = 0
+            elif lo <= v <= hi:
+                want = int(v) if v >= 0 else -int(-v)      # truncation toward zero
+            else:
+                want = 0
+            got = int(f[name])
+            if got != want:
+                return ("conv:as-int", "as<%s>() of %s is %d, expected %d" % (name, t, got, want))
+            if kind in "UIfd":
+                want_is = stored_int and lo <= v <= hi
+                if (isb[i] == "1") != want_is:
+                    return ("conv:is-int", "is<%s>() of %s is %s" % (name, t, isb[i]))
+        # floating targets: nearest representable
+        if kind in "UI":
+            n = int(t[1:])
+            wd, wf = int_to_double_bits(n), int_to_float_bits(n)
+        elif kind == "f":
+            b = int(t[1:], 16)
+            wf = b
+            wd = gens.double_bits(struct.unpack("<f", struct.pack("<I", b))[0])
+        elif kind == "d":
+            b = int(t[1:], 16)
+            wd = b
+            x = struct.unpack("<d", struct.pack("<Q", b))[0]
+            wf = py_float32(x)
+        else:
+            return None
+        gd, gf = int(f["d"], 16), int(f["f"], 16)
+        nan_d = gens.f64_value(wd) == "nan"
+        if (gens.f64_value(gd) == "nan") != nan_d or (not nan_d and gd != wd):
+            return ("conv:as-double", "as<double>() of %s is %016x, nearest representable is %016x" % (t, gd, wd))
+        nan_f = gens.f32_value(wf) == "nan"
+        if (gens.f32_value(gf) == "nan") != nan_f or (not nan_f and gf != wf):
+            return ("conv:as-float", "as<float>() of %s is %08x, nearest representable is %08x" % (t, gf, wf))
+        return None
+
+    def feature(self, case, h):
+        return case.meta["term"]
+
+
+# ================================================================================================ C12: numbers through text
+class NumSuite(Suite):
+    name = "num"
+
+    def canon_h(self, case, h):
+        return canon_nan(Suite.canon_h(self, case, h))
+
+    def canon_m(self, case, m):
+        return canon_nan(m)
+
+    def generate(self, rng, tier):
+        cb = cfgbits(self.cfg)
+        n = getattr(self, "n", 12000 if tier == "quick" else 1500000)
+        cases = []
+        lits = []
+        for k in [31, 32, 53, 63, 64]:
+            for d in (-2, -1, 0, 1, 2):
+                lits.append(str(2 ** k + d))
+                lits.append("-" + str(2 ** k + d))
+                lits.append("000" + str(2 ** k + d))
+        for e in range(-330, 331, 3):
+            lits += ["1e%d" % e, "9.999999e%d" % e, "1.0000001e%d" % e, "123456789012345678e%d" % e, "4.9406564584124654e%d" % e]
+        for _ in range(n):
+            r = rng.random()
+            if r < 0.5:
+                exp, txt = gens.gen_number(rng)
+                lits.append(txt.decode())
+            elif r < 0.8:
+                # long literals (only reachable through as<T>() on a string)
+                nd = rng.choice([20, 40, 64, 100, 300, 800, 2000] if tier == "quick" else [20, 64, 300, 1000, 5000])
+                ip = "".join(rng.choice("0123456789") for _ in range(rng.randrange(1, nd)))
+                fp = "".join(rng.choice("0123456789") for _ in range(rng.randrange(0, nd)))
+                ex = rng.choice(["", "e%d" % rng.randrange(-400, 400), "E+%d" % rng.randrange(0, 400), "e-%d" % rng.randrange(0, 900)])
+                lits.append(rng.choice(["", "-", "+"]) + ip + ("." + fp if fp and rng.random() < 0.7 else "") + ex)
+            else:
+                # near the edges of the range
+                m = rng.choice(["1", "9.99", "1.7976931348623157", "2.2250738585072014", "4.9", "3.4028235", "1.17549435", "0.00001", "123456789.123456789"])
+                lits.append(rng.choice(["", "-"]) + m + "e" + str(rng.choice([300, 301, 305, 307, 308, 309, -300, -301, -307, -308, -310, -320, -324, -325, 37, 38, 39, -37, -38, -39, -45, -46])))
+        for s in lits:
+            cases.append(Case("conv %d t:%s%s" % (cb, rng.choice("SL"), s.encode().hex()), kind="parse", lit=s))
+        m = getattr(self, "nprint", 20000 if tier == "quick" else 3000000)
+        for _ in range(m):
+            r = rng.random()
+            if r < 0.45:
+                cases.append(Case("jsonser %d t:f%08x" % (cb, rng.getrandbits(32) if rng.random() < 0.8 else rng.choice(gens.BOUND_F32 + mpack.BOUNDARY_F32)), kind="print"))
+            elif r < 0.7:
+                cases.append(Case("jsonser %d t:d%016x" % (cb, rng.getrandbits(64)), kind="print"))
+            elif r < 0.85:
+                x = rng.choice([1, -1]) * rng.random() * 10.0 ** rng.randrange(-310, 309)
+                cases.append(Case("jsonser %d t:d%016x" % (cb, gens.double_bits(x)), kind="print"))
+            elif r < 0.93:
+                k = rng.randrange(0, 64)
+                x = float(2 ** k + rng.choice([-1, 0, 1])) * rng.choice([1, -1, 0.5, 0.25])
+                cases.append(Case("jsonser %d t:d%016x" % (cb, gens.double_bits(x)), kind="print"))
+            else:
+                x = 10.0 ** rng.randrange(-300, 300) * rng.choice([1, 0.9999999999, 1.0000000001, 9.9999999995, 0.99999995])
+                cases.append(Case("jsonser %d t:d%016x" % (cb, gens.double_bits(x)), kind="print"))
+        for v in [0, 1, 9, 10, 2 ** 31, 2 ** 32, 2 ** 53, 2 ** 63 - 1, 2 ** 63, 2 ** 64 - 1] + [rng.getrandbits(64) for _ in range(300)]:
+            cases.append(Case("jsonser %d t:U%d" % (cb, v), kind="print"))
+            if v < 2 ** 63:
+                cases.append(Case("jsonser %d t:I-%d" % (cb, v), kind="print"))
+        return cases
+
+    def oracle(self, case, h):
+        o = Suite.oracle(self, case, h)
+        if o:
+            return (o[0] + (":linked-string" if " t:L" in case.line else ""), o[1] + " on " + case.line[:100])
+        if case.meta["kind"] == "parse":
+            f = dict(x.split("=") for x in h.split(" ") if "=" in x)
+            s = case.meta["lit"]
+            v = gens.lit_value(s)
+            sig = gens.sig_digits(s)
+            p = gens.check_parsed_number(("Q", v, sig), ("d", int(f["d"], 16)))
+            if p:
+                return ("num:parse-double", "as<double>() on \"%s\": %s" % (s[:60] + ("..." if len(s) > 60 else ""), p))
+            if re.fullmatch(r"[+-]?[0-9]+", s):
+                n = int(s)
+                if 0 <= n < 2 ** 64 and int(f["u64"]) != n:
+                    return ("num:parse-uint", "as<uint64_t>() on \"%s\" is %s" % (s[:40], f["u64"]))
+                if -2 ** 63 <= n < 2 ** 63 and int(f["i64"]) != n:
+                    return ("num:parse-int", "as<int64_t>() on \"%s\" is %s" % (s[:40], f["i64"]))
+            return None
+        f = h.split(" ")
+        stored = parse_tree(f[1])
+        text = bytes.fromhex(f[2]) if f[2] != "-" else b""
+        try:
+            parsed = gens.py_json_parse(text)
+        except Exception as e:
+            return ("num:print-not-json", "number printed as %r" % text)
+        p = check_printed_number(stored, parsed)
+        if p:
+            sig = "num:print-float" if stored[0] == "f" else ("num:print-double" if stored[0] == "d" else "num:print-int")
+            if stored[0] == "f" and case.line.split("t:")[1][0] == "d":
+                sig = "num:print-double-stored-as-float"
+            return (sig, p + " (text %r)" % text)
+        if stored[0] in "UI" and text != str(stored[1]).encode():
+            return ("num:print-int", "integer %d printed as %r" % (stored[1], text))
+        return None
+
+    def feature(self, case, h):
+        return case.line if len(case.line) > 20 else None
+
+
+# ================================================================================================ C18: comparisons
+class CmpSuite(Suite):
+    name = "cmp"
+
+    POOL = None
+
+    def pool(self):
+        vals = ["N", "?", "T", "F"]
+        for v in [0, 1, 2, 127, 128, 255, 2 ** 31 - 1, 2 ** 31, 2 ** 32 - 1, 2 ** 32, 2 ** 53, 2 ** 53 + 1, 2 ** 63 - 1, 2 ** 63, 2 ** 64 - 1]:
+            vals.append("U%d" % v)
+            if v < 2 ** 63:
+                vals.append("I%d" % v)
+                vals.append("I-%d" % v)
+        vals.append("I-9223372036854775808")
+        for b in [0, 0x80000000, 0x3F800000, 0xBF800000, 0x3FC00000, 0x4F000000, 0x4F800000, 0x5F000000, 0x5F800000, 0x7F800000, 0xFF800000, 0x7FC00000, 0x00000001, 0x4B800000, 0x40000000]:
+            vals.append("f%08x" % b)
+        for b in [0x3FF0000000000001, 0x43E0000000000000, 0x43F0000000000000, 0x4340000000000000, 0x4340000000000001, 0x7FF8000000000000, 0x3FB999999999999A, 0x7FEFFFFFFFFFFFFF,
+                  0xC3E0000000000000, 0x41DFFFFFFFC00000, 0x41E0000000000000]:
+            vals.append("d%016x" % b)
+        for s in [b"", b"a", b"ab", b"abc", b"b", b"\x80", b"a\x80", b"a\x00", b"a\x00b", b"1", b"\xff", b"A"]:
+            vals.append("S" + s.hex())
+            if b"\x00" not in s:
+                vals.append("L" + s.hex())
+        for r in [b"1", b"[1]", b"ab", b"abc", b"", b"\x80"]:
+            vals.append("R" + r.hex())
+        vals += ["[]", "[I1]", "[U1]", "[I1,I2]", "[I2,I1]", "[f3f800000]", "[[I1]]", "[N]", "[S61]", "[L61]", "[I1,I2,I3]",
+                 "{}", "{61:I1}", "{61:U1}", "{61:I1,62:I2}", "{62:I2,61:I1}", "{61:I1,62:I3}", "{61:N}", "{62:I1}", "{61:[I1]}", "{61:{62:I2}}", "{l61:I1}", "{61:f3f800000,62:I2}"]
+        # objects with repeated keys are only reachable through MessagePack
+        vals += ["m:82a16101a16101", "m:82a16101a16202", "m:82a16101a16102", "m:83a16101a16101a16202"]
+        return vals
+
+    def generate(self, rng, tier):
+        pool = self.pool()
+
+        def spec(x):
+            return x if x.startswith("m:") or x == "?" else "t:" + x
+        cases = []
+        for a in pool:
+            for b in pool:
+                cases.append(Case("cmp %s %s" % (spec(a), spec(b)), kind="vv", a=a, b=b))
+        scal = ["i64:0", "i64:1", "i64:-1", "i64:9223372036854775807", "i64:-9223372036854775808", "u64:0", "u64:1", "u64:18446744073709551615", "u64:9223372036854775808",
+                "i32:-1", "i32:1", "i32:2147483647", "u32:4294967295", "u32:1", "i16:-1", "u16:65535", "b:1", "b:0", "d:3ff0000000000000", "d:7ff8000000000000", "d:43e0000000000000",
+                "d:43f0000000000000", "f:3f800000", "f:4f800000", "s:61", "s:6162", "s:", "s:610062", "cs:61", "cs:", "s:80"]
+        for a in pool:
+            if a == "?":
+                continue
+            for s in scal:
+                cases.append(Case("cmps %s %s" % (spec(a), s), kind="vs", a=a, s=s))
+        return cases
+
+    @staticmethod
+    def term_tree(x):
+        if x == "?":
+            return ("N",)
+        if x.startswith("m:"):
+            mv, _ = mpack.decode(bytes.fromhex(x[2:]))
+
+            def conv(v):
+                k = v[0]
+                if k == "int":
+                    return ("I", v[1])
+                if k == "str":
+                    return ("S", v[1])
+                if k == "map":
+                    return ("O", [(kk[1], conv(vv)) for kk, vv in v[1]])
+                if k == "arr":
+                    return ("A", [conv(z) for z in v[1]])
+                return ("N",)
+            return conv(mv)
+        return gens.stored_tree(gens.parse_term(x))
+
+    @staticmethod
+    def as_double(t):
+        """numeric value as the double the library would compare (ints rounded to nearest)"""
+        if t[0] in "UI":
+            return gens.f64_value(int_to_double_bits(t[1]))
+        return num_value(t)
+
+    @classmethod
+    def expect_eq(cls, a, b):
+        """True / False / None (= the property does not say)"""
+        ka, kb = a[0], b[0]
+        numa, numb = ka in "UIfd", kb in "UIfd"
+        if numa and numb:
+            if ka in "UI" and kb in "UI":
+                return a[1] == b[1]
+            x, y = cls.as_double(a), cls.as_double(b)
+            if x == "nan" or y == "nan":
+                return False
+            return x == y
+        if ka == "B" or kb == "B":
+            if ka == kb:
+                return a[1] == b[1]
+            return None if (numa or numb) else False
+        if ka != kb:
+            return False
+        if ka == "N":
+            return True
+        if ka in "SR":
+            return a[1] == b[1]
+        if ka == "A":
+            if len(a[1]) != len(b[1]):
+                return False
+            res = True
+            for x, y in zip(a[1], b[1]):
+                e = cls.expect_eq(x, y)
+                if e is False:
+                    return False
+                if e is None:
+                    res = None
+            return res
+        if ka == "O":
+            keys_a = [k for k, _ in a[1]]
+            keys_b = [k for k, _ in b[1]]
+            if len(set(keys_a)) != len(keys_a) or len(set(keys_b)) != len(keys_b):
+                return None                       # repeated keys: no plain meaning
+            if sorted(keys_a) != sorted(keys_b):
+                return False
+            db = dict(b[1])
+            res = True
+            for k, x in a[1]:
+                e = cls.expect_eq(x, db[k])
+                if e is False:
+                    return False
+                if e is None:
+                    res = None
+            return res
+        return None
+
+    def oracle(self, case, h):
+        o = Suite.oracle(self, case, h)
+        if o:
+            return (o[0], o[1] + " on " + case.line[:100])
+        f = h.split(" ")
+        ab = [c == "1" for c in f[0]]
+        ba = [c == "1" for c in f[1]]
+        eq, ne, lt, le, gt, ge = ab
+        eq2, ne2, lt2, le2, gt2, ge2 = ba
+        what = case.line[:120]
+        dup = "m:8" in case.line
+        if eq != eq2 or ne != ne2:
+            return ("cmp:eq-asymmetric" + (":repeated-keys" if dup else ""), "a==b is %s but b==a is %s for %s" % (eq, eq2, what))
+        if ne == eq:
+            return ("cmp:ne-not-negation", "a!=b is %s while a==b is %s for %s" % (ne, eq, what))
+        if lt != gt2 or gt != lt2:
+            return ("cmp:lt-gt-asymmetric", "a<b=%s b>a=%s a>b=%s b<a=%s for %s" % (lt, gt2, gt, lt2, what))
+        if le != (lt or eq) or ge != (gt or eq) or le2 != (lt2 or eq2) or ge2 != (gt2 or eq2):
+            return ("cmp:le-ge-incoherent", "<= / >= disagree with < == > for %s: %s %s" % (what, f[0], f[1]))
+        if (lt + eq + gt) > 1:
+            return ("cmp:not-exclusive", "more than one of < == > holds for %s" % what)
+        if case.meta["kind"] == "vv":
+            a, b = self.term_tree(case.meta["a"]), self.term_tree(case.meta["b"])
+            e = self.expect_eq(a, b)
+            if e is not None and e != eq:
+                sig = "cmp:wrong-equality"
+                x, y = (num_value(a), num_value(b))
+                if "nan" in (x, y):
+                    sig += ":nan"
+                return (sig, "a==b is %s, by value it is %s, for %s" % (eq, e, what))
+            if a[0] in "UIfd" and b[0] in "UIfd":
+                if a[0] in "UI" and b[0] in "UI":
+                    x, y = a[1], b[1]
+                else:
+                    x, y = self.as_double(a), self.as_double(b)
+                if "nan" not in (x, y):
+                    inf = {"inf": 1, "-inf": -1}
+                    kx = (inf.get(x, 0), x if x not in inf else 0)
+                    ky = (inf.get(y, 0), y if y not in inf else 0)
+                    if (kx < ky) != lt or (kx > ky) != gt:
+                        return ("cmp:wrong-order", "a<b=%s a>b=%s but by value %s for %s" % (lt, gt, "a<b" if kx < ky else ("a>b" if kx > ky else "a==b"), what))
+        else:
+            a = self.term_tree(case.meta["a"])
+            kind, val = case.meta["s"].split(":")
+            sv = None
+            if kind in ("i64", "i32", "i16", "u64", "u32", "u16"):
+                sv = ("I" if kind[0] == "i" else "U", int(val))
+            elif kind == "d":
+                sv = ("d", int(val, 16))
+            elif kind == "f":
+                sv = ("f", int(val, 16))
+            elif kind in ("s", "cs"):
+                sv = ("S", bytes.fromhex(val))
+            if sv is not None and not (kind == "cs" and b"\x00" in sv[1]):
+                e = self.expect_eq(a, sv)
+                if e is not None and e != eq:
+                    sig = "cmp:scalar-wrong-equality"
+                    if "nan" in (num_value(a), num_value(sv)):
+                        sig += ":nan"
+                    elif kind in ("i32", "i16") and a[0] == "U":
+                        sig += ":narrow-signed-vs-unsigned"
+                    return (sig, "variant == scalar is %s, by value %s, for %s" % (eq, e, what))
+                if a[0] in "UIfd" and sv[0] in "UIfd":
+                    if a[0] in "UI" and sv[0] in "UI":
+                        x, y = a[1], sv[1]
+                    else:
+                        x, y = self.as_double(a), self.as_double(sv)
+                    if "nan" not in (x, y):
+                        inf = {"inf": 1, "-inf": -1}
+                        kx = (inf.get(x, 0), x if x not in inf else 0)
+                        ky = (inf.get(y, 0), y if y not in inf else 0)
+                        if (kx < ky) != lt or (kx > ky) != gt:
+                            sig = "cmp:scalar-wrong-order"
+                            if kind in ("i32", "i16") and a[0] == "U":
+                                sig += ":narrow-signed-vs-unsigned"
+                            return (sig, "variant<scalar=%s variant>scalar=%s but by value %s for %s" % (lt, gt, "less" if kx < ky else ("greater" if kx > ky else "equal"), what))
+        return None
+
+    def feature(self, case, h):
+        return case.line
